@@ -339,6 +339,18 @@ def run(tier):
             stream.add(reset, evs, group="random_" + build, source="random/%s seed %d" % (build, chk.seed), random_ref={"args": args, "run": i})
         wrapped = sum(1 for (reset, evs) in runs if evs and max(evs[-1]["st"]) >= reset["h"] > min(reset["sq0"], reset["cq0"]))
         rnd_stats["random_" + build] = {"runs": len(runs), "events": sum(len(evs) for _, evs in runs), "runs_crossing_u32_wrap": wrapped}
+    # needs_wakeup(): the kernel side puts every subset of {NEED_WAKEUP, CQ_OVERFLOW, TASKRUN} (and one unknown bit) into
+    # the submission ring's flags word, between ordinary operations
+    wplans = [{"run": 0, "ns": 2, "nc": 2, "flags": fl, "h": 8, "sq0": 7, "cq0": 7,
+               "steps": [["get"], ["fill", 1], ["flush"]] + [["wakeup", v] for v in list(range(8)) + [9, 16]] + [["consume", 1]]}
+              for fl in (0, SQPOLL)]
+    wpath = os.path.join(chk.work, "plan_wakeup.ndjson")
+    core.write_ndjson(wpath, wplans)
+    stream.planfiles.append(wpath)
+    for build, bindir in bindirs.items():
+        for i, (reset, evs) in enumerate(R.run_harness(bindir, ["plan", wpath])):
+            stream.add(reset, evs, group="wakeup", source="needs_wakeup flag subsets/%s" % build, plan_ref=(wpath, i))
+            rnd_stats["wakeup_" + build] = {"runs": i + 1, "events": len(evs)}
     # bounded exhaustive exploration of the real code itself (no model in the loop): every feasible sequence
     for (ns, nc, depth) in ([(1, 1, 6), (2, 2, 5)] if quick else [(1, 1, 7), (2, 2, 7), (2, 4, 6), (4, 4, 6)]):
         for build, bindir in bindirs.items():
@@ -409,7 +421,7 @@ def run(tier):
         "model counters 0..2H-1 stand for real 2^32-H+m: exactly one u32 wrap per run in toured configurations; random runs start at 2^32-d (d small), at 0, at u32::MAX or far from the wrap",
         "the simulated kernel consumes through sq_array and decides from the shared head/tail words only, like the real one; kernel overflow handling of a full completion ring is not modelled (it does not post)",
         "a ring refusing a slot is admitted only when all ring-size slots are outstanding (a ring of size n holds n entries)",
-        "the return value of flush_submission_queue is compared with the model (B1) but not constrained by the property-level specification",
+        "the return value of flush_submission_queue is judged at the property level: it must be the number of published, not yet consumed entries (what the caller hands to io_uring_enter); needs_wakeup() must be the test of the NEED_WAKEUP bit for every value of the flags word",
         "runs counted in traces_validated_against_impl are those the property-level specification accepts completely; runs that reproduce the known finding are judged to their end but not counted",
     ]
     return chk.finish()
